@@ -29,6 +29,7 @@ func init() {
 	wrap("C01", func(c *Ctx) { extra8SyncLoad(c, "C01-R15") })
 	wrap("C11", func(c *Ctx) { extra8SyncLoad(c, "C11-R20") })
 	wrap("C09", extra8C09)
+	wrap("C01", extra8C01b)
 	wrap("C15", extra8C15)
 	wrap("C04", extra8C04b)
 	registry["C10"].Pkgs = append(registry["C10"].Pkgs, "fs/util/bufioutil")
@@ -899,4 +900,58 @@ func extra8C04b(c *Ctx) {
 		}
 	}
 	c.Expect(rule, "model look-ups in package server", n, 8)
+}
+
+// ---------------------------------------------------------------------------------- C01 (liveness at the hand-out)
+
+func extra8C01b(c *Ctx) {
+	rule := "C01-R16"
+	m := newSchedModel(c, rule)
+	info := m.info
+	c.Rule(rule, "a runner is known to be alive where it is handed out: outside the loader (Scheduler.load creates the runner and holds its refMu until its own hand-out) every send of a runner on successCh happens with that runner's refMu held and on the edge of a test that finds its llama field non-nil in the same function — the reuse decision (needsReload) and the hand-out (useLoadedRunner) are two critical sections, the runner's expiry can be handled between them, and a hand-out that does not look again gives the request a runner that has been shut down")
+	fLlama := c.P.LookupField("server", "runnerRef", "llama")
+	if fLlama == nil {
+		c.Undecided(rule, "anchor:runnerRef.llama", "-", "anchor lost")
+		return
+	}
+	n := 0
+	for _, op := range m.opsOn(m.fSuccessCh, true) {
+		root := op.Fn
+		for root.Parent != nil {
+			root = root.Parent
+		}
+		if root.Name == "Scheduler.load" {
+			continue
+		}
+		ss, isSend := op.Node.(*ast.SendStmt)
+		if !isSend {
+			continue
+		}
+		n++
+		g := c.G(op.Fn)
+		loc := g.Locate(ss)
+		sent := core.PathOf(info, ss.Value)
+		alive := false
+		for _, a := range g.AtomsAt(loc) {
+			x, eq, isNil := core.IsNilCheck(info, a.Expr)
+			if !isNil || eq == a.Val { // need: (x == nil) false, or (x != nil) true
+				continue
+			}
+			if se, isSel := ast.Unparen(x).(*ast.SelectorExpr); isSel && core.FieldVar(info, se) == fLlama {
+				if p := core.PathOf(info, se.X); p.Valid() && sent.Valid() && p.Root == sent.Root {
+					alive = true
+				}
+			}
+		}
+		held := sent.Valid() && m.lc.heldAt(ss).HasPath(core.Path{Root: sent.Root, Fields: append(append([]*types.Var{}, sent.Fields...), m.fRefMu)})
+		why := ""
+		switch {
+		case !held:
+			why = "the runner's refMu is not held at the hand-out"
+		case !alive:
+			why = "no test of the runner's llama field against nil leads to this hand-out: a runner unloaded since the reuse decision is handed out"
+		}
+		c.Check(rule, op.Fn.Key()+" send:successCh#"+itoa(n)+" of a runner known to be alive", c.Pos(ss), why == "", why)
+	}
+	c.Expect(rule, "hand-outs of an already loaded runner", n, 1)
 }
